@@ -184,12 +184,59 @@ def sample_claims(a, x):
     return C
 
 
+def build_exp_event(a, seed, rowscale=False):
+    """symmetric_matrix_to_trace1PSD: no wrapper class; the Hermitian argument is drawn here (opt: 0 generic, 1 / 2 dominated by one large
+    negative / positive eigenvalue - entries of one sign near the magnitude), NumPy and PyTorch routes, batched and per sample"""
+    import torch, numqi
+    rng = np.random.default_rng(seed)
+    d, b, mag = a['d'], a['batch'], MAG[a['mag']]
+    nb = max(b, 1)
+    H = []
+    for i in range(nb):
+        if a['opt'] == 0:
+            v = rng.uniform(-mag, mag, size=(d, d))
+        else:
+            sgn = -1.0 if a['opt'] == 1 else 1.0
+            if rowscale and i % 2:
+                sgn = -sgn
+            v = sgn * mag * rng.uniform(0.9, 1.0, size=(d, d))
+        v = (v + v.T) / 2
+        if a['cplx']:
+            w = rng.uniform(-mag, mag, size=(d, d)) * (1.0 if a['opt'] == 0 else 0.05)
+            v = v + 1j * (w - w.T) / 2
+        H.append(v)
+    H = np.stack(H) if b else H[0]
+    f = numqi.manifold.symmetric_matrix_to_trace1PSD
+    out_np = np.asarray(f(H))
+    out_t = f(torch.tensor(H)).detach().cpu().numpy()
+    C = []
+    if b:
+        C.append(dict(c='len', v=[[0, 0]] * len(out_np), n=b))
+    samples = [out_np[i] for i in range(b)] if b else [out_np]
+    for x in samples[:2]:
+        C += [dict(c='shape', M=_g(x), rows=d, cols=d), dict(c='hermitian', M=_g(x)), dict(c='trace1', M=_g(x)), dict(c='gram', M=_g(x), A=_g(_gram(x, d)), cols=d)]
+        if not a['cplx']:
+            C.append(dict(c='real', M=_g(x)))
+    same = lambda x, y: dict(c='same', x=_g(np.asarray(x).reshape(-1)), y=_g(np.asarray(y).reshape(-1)) if np.asarray(x).shape == np.asarray(y).shape else [])
+    C.append(same(out_np, out_t))
+    if b:
+        for i in range(min(b, 2)):
+            C.append(same(out_np[i], f(H[i])))
+        if b >= 2:
+            o2 = np.asarray(f(np.stack([H, H[::-1]])))
+            C.append(same(o2[0], out_np))
+            C.append(same(o2[1], out_np[::-1]))
+    return dict(a=a, S=SCALE, seed=int(seed), claims=C)
+
+
 def build_event(a, seed, rowscale=False):
     """rowscale: the rows of a batch live on very different scales (row 0 near +m, row 1 near -m, ...) - any real parameter batch is
     admissible, and a map that lets one row influence another (a shift, a norm, a maximum taken over the whole batch) shows there.
     The entries of a row are spread over [0.3 m, m]: with a narrower spread a matrix-valued parameter is nearly rank one and two float32
     routes of an orthonormalisation legitimately differ by 2e-3 (thorough-tier false alarm of the first version, Stiefel choleskyL 6x6)"""
     import torch, numqi
+    if a['cls'] == 'ExpTrace1PSD':
+        return build_exp_event(a, seed, rowscale)
     rng = np.random.default_rng(seed)
     mod = make_module(a)
     mag = MAG[a['mag']]
@@ -273,7 +320,7 @@ def build_event(a, seed, rowscale=False):
 def run(ctx):
     quick = ctx.tier == 'quick'
     rng = random.Random(ctx.seed)
-    ctx.rule = ('option lattice of numqi.manifold enumerated by TLC (11 classes x methods x real/complex x float32/float64 x batch None,1,2%s x dim 2..%d x rank x |theta| <= 0.3, 2, 20, 100); '
+    ctx.rule = ('option lattice of numqi.manifold enumerated by TLC (11 classes x methods x real/complex x float32/float64 x batch None,1,2%s x dim 2..%d x rank x |theta| <= 0.3, 2, 20, 100) plus the exponential map symmetric_matrix_to_trace1PSD on both sides of its dense/iterative eigenvalue branch with generic and one-sided spectra; '
                 '%s descriptors executed; per descriptor: module output, functional map in PyTorch and NumPy, per-sample and (k,l)-batched calls; membership decided by TLC on outputs rounded at '
                 'scale %d (PSD / rank by Gram certificate, separability by the decomposition held by the module); distinct by descriptor'
                 % ('' if quick else ',3', 4 if quick else 6, 'a seeded sample with one descriptor from every (class, method, field, precision, batch, magnitude, option) cell and every (class, method, field, dim, rank) cell' if quick else 'all', SCALE))
@@ -297,6 +344,9 @@ def run(ctx):
                 cells.setdefault(keyf(a), []).append(a)
             for k in sorted(cells, key=repr):
                 a = rng.choice(cells[k])
+                chosen[repr(sorted(a.items()))] = a
+        for a in calls:
+            if a['cls'] == 'ExpTrace1PSD':       # few, and the failure needs one combination (dimension above the dense branch, magnitude, spectrum): all are executed
                 chosen[repr(sorted(a.items()))] = a
         calls = [chosen[k] for k in sorted(chosen)]
     ev, meta = [], []
